@@ -32,6 +32,7 @@ type rctx struct {
 	subst  map[*ssa.Parameter]string // parameter renderings while inlining
 	ilevel int
 	phiSub map[*ssa.Phi]ssa.Value // phis fixed to one incoming value (XsAt)
+	boolFix func(ssa.Value) (bool, bool) // conditions decided by the assumptions under which v is read
 }
 
 // X renders v from the point of view of function fn.
@@ -52,6 +53,11 @@ func (e *Eng) XI(fn *ssa.Function, v ssa.Value) string {
 // else by the reached edges).  "now.Add(d)" with d joined from two branches renders as the two
 // expressions a reader would write for the two branches.
 func (e *Eng) XsAt(r *Reached, at ssa.Instruction, v ssa.Value) []string {
+	return e.XsAtFix(r, at, v, nil)
+}
+
+// XsAtFix is XsAt with conditions inside the expression decided by fix where it can.
+func (e *Eng) XsAtFix(r *Reached, at ssa.Instruction, v ssa.Value, fix func(ssa.Value) (bool, bool)) []string {
 	fn := at.Parent()
 	var phis []*ssa.Phi
 	seen := map[ssa.Value]bool{}
@@ -123,7 +129,7 @@ func (e *Eng) XsAt(r *Reached, at ssa.Instruction, v ssa.Value) []string {
 					sub[p] = opts[i][idx[i]]
 				}
 			}
-			rc := &rctx{e: e, fn: fn, seen: map[ssa.Value]bool{}, phiSub: sub}
+			rc := &rctx{e: e, fn: fn, seen: map[ssa.Value]bool{}, phiSub: sub, boolFix: fix}
 			out[rc.x(v)] = true
 			k := 0
 			for k < len(phis) {
@@ -380,6 +386,16 @@ func (c *rctx) x(v ssa.Value) string {
 	if c.depth > maxDepth {
 		return "…"
 	}
+	if c.boolFix != nil {
+		if _, isK := v.(*ssa.Const); !isK && isBoolType(v.Type()) {
+			if b, ok := c.boolFix(v); ok {
+				if b {
+					return "true"
+				}
+				return "false"
+			}
+		}
+	}
 	if isContextType(v.Type()) {
 		// contexts are plumbing: which derived context is passed is never what a rule
 		// decides by rendering (rules that care inspect the With* calls directly)
@@ -431,6 +447,25 @@ func (c *rctx) x(v ssa.Value) string {
 	case *ssa.BinOp:
 		if isInduction(v) {
 			return "i"
+		}
+		if v.Op == token.EQL || v.Op == token.NEQ {
+			// comparison of a condition with a boolean constant: "x != true" is "!x"
+			xs, ys := c.x(v.X), c.x(v.Y)
+			if isBoolType(v.X.Type()) {
+				for _, pr := range [][2]string{{xs, ys}, {ys, xs}} {
+					if pr[1] == "true" || pr[1] == "false" {
+						same := (pr[1] == "true") == (v.Op == token.EQL)
+						if same {
+							return pr[0]
+						}
+						if strings.HasPrefix(pr[0], "!") {
+							return pr[0][1:]
+						}
+						return "!" + pr[0]
+					}
+				}
+			}
+			return "(" + xs + " " + v.Op.String() + " " + ys + ")"
 		}
 		return "(" + c.x(v.X) + " " + v.Op.String() + " " + c.x(v.Y) + ")"
 	case *ssa.Call:
@@ -876,6 +911,11 @@ func isLenCall(v ssa.Value) bool {
 	}
 	b, ok := c.Call.Value.(*ssa.Builtin)
 	return ok && b.Name() == "len"
+}
+
+func isBoolType(t types.Type) bool {
+	b, ok := t.Underlying().(*types.Basic)
+	return ok && b.Info()&types.IsBoolean != 0
 }
 
 func isContextType(t types.Type) bool {
